@@ -74,6 +74,11 @@ def parseSysOp (o : OState) : List String → Option Sys.Op
   | ["rt", "initerror", t] => some (.rtInitError t)
   | ["rt", "restorenext"] => some .rtRestoreNext
   | ["rt", "raw", m, p] => some (.rtRaw m p)
+  | ["rt", "restoreerror", t] => some (.rtRestoreError t)
+  | ["rt", "creds", tok] => some (.rtCreds tok)
+  | ["init"] => some .init
+  | ["restore", _] => some (.restore "AKIDRESTORED")
+  | ["restore", _, key] => some (.restore key)
   | ["exit", base, st] =>
     if st.startsWith "sig" then some (.exit base st false) else some (.exit base s!"code{st}" (st == "0"))
   | ["sleep", _] => some .nop
@@ -100,7 +105,7 @@ def timerClosure (wf : Nat) : Nat → List Sys.State → List Sys.State
 
 /-- keep one representative per (observation-relevant) state: compare by a printed digest -/
 def digest (s : Sys.State) : String :=
-  s!"{repr s.orch}|{repr s.queue}|{s.timers}|{s.rtDeadlineFired}{s.agDeadlineFired}{s.graceFired}|{repr s.flights}|{repr s.resv}|{repr s.procs}|{repr s.agents}|{repr s.rt}|{s.rtFlag}|{repr s.renderer}|{s.fatal}|{repr s.initChan}|{s.doneChan}|{s.cached}|{s.gen}|{s.initDone}|{s.cancelDone}|{repr s.initFlow}|{repr s.invFlow}|{s.crashed}|{repr s.pending}|{s.regOn}|{s.killQueue}"
+  s!"{repr s.orch}|{repr s.queue}|{s.timers}|{s.rtDeadlineFired}{s.agDeadlineFired}{s.graceFired}|{repr s.flights}|{repr s.resv}|{repr s.procs}|{repr s.agents}|{repr s.rt}|{s.rtFlag}|{repr s.renderer}|{s.fatal}|{repr s.initChan}|{s.doneChan}|{s.cached}|{s.gen}|{s.initDone}|{s.cancelDone}|{repr s.initFlow}|{repr s.invFlow}|{s.crashed}|{repr s.pending}|{s.regOn}|{s.killQueue}|{s.restoreWaiting}|{s.credKey}"
 
 def dedupStates (l : List OState) : List OState :=
   l.foldl (fun acc o => if acc.any (fun p => digest p.s == digest o.s && p.lastRt == o.lastRt && p.aliases == o.aliases) then acc else acc ++ [o]) []
